@@ -7,7 +7,7 @@ From Sci Require Export StdPath.ModelRouting StdPath.Spec Common.AesCmac.
 Local Open Scope N_scope.
 
 Inductive rref := RSame | RLit (l : list N) | RDiff (d : list (N * N)).   (* RDiff: (position, new byte) *)
-Record rcase := mkRC {
+Record rstd := mkRC {
   rc_kind : N;                    (* 0 free, 1 authentic walk (every step must pass), 2/3 single/double bit flip *)
   rc_b : list N;                  (* path bytes *)
   rc_keys : list (list N);        (* forwarding keys *)
@@ -134,7 +134,7 @@ Definition owner_hop (b : list N) (owner : N) : N :=
 
 (** a tampered authenticated bit: no step that validates the owning hop field may pass, and
     (single flip) the walk must be rejected somewhere *)
-Definition tamper_oracle (c : rcase) : bool :=
+Definition tamper_oracle (c : rstd) : bool :=
   if rc_owner c =? 999 then true else
   let o := owner_hop (rc_b c) (rc_owner c) in
   let tr := trace (rc_b c) (rc_steps c) (rc_res c) in
@@ -142,10 +142,31 @@ Definition tamper_oracle (c : rcase) : bool :=
              negb ((code =? 0) && (kind <? 3) && ((hb =? o) || ((kind <? 2) && (ha =? o))))) tr
   && ((rc_kind c =? 3) || existsb (fun '(_, code, _, _) => negb (code =? 0)) tr).
 
-Definition verdict (c : rcase) : N :=
+(** one-hop cases: set_second_hop(ingress, key, advanced) on the view and on the model made from
+    the same bytes; [oc_view] = view bytes afterwards, [oc_model] = encoding of the model afterwards *)
+Record ocase := mkOC {
+  oc_b : list N; oc_key : list N; oc_ingress : N; oc_adv : N; oc_view : list N; oc_model : list N }.
+Inductive rcase := RStd (c : rstd) | ROne (c : ocase).
+
+Definition one_verdict (c : ocase) : N :=
+  let adv := oc_adv c =? 1 in
+  let mismatch :=
+      negb (list_eqb N.eqb (oh_view_set_second_hop aes_cmac (oc_b c) (oc_ingress c) (oc_key c) adv) (oc_view c)
+            && list_eqb N.eqb (oh_encode (oh_model_set_second_hop aes_cmac (oh_from_view (oc_b c)) (oc_ingress c) (oc_key c) adv))
+                        (oc_model c)) in
+  (* the second hop field built by the IMPLEMENTATION must authenticate at the second AS: its MAC
+     is the specification MAC (Gallina AES-CMAC) over the fields as finally stored *)
+  let ok := sp_onehop_second_hop_ok aes_cmac (oc_key c) adv (oc_ingress c) (oc_view c)
+            && sp_onehop_second_hop_ok aes_cmac (oc_key c) adv (oc_ingress c) (oc_model c)
+            (* info field and first hop untouched *)
+            && list_eqb N.eqb (firstn 20 (oc_view c)) (firstn 20 (oc_b c)) in
+  (if mismatch then 1 else 0) + (if ok then 0 else 2).
+
+Definition std_verdict (c : rstd) : N :=
   let mismatch := run_mismatch (rc_keys c) (rc_b c) (rc_steps c) (rc_res c) in
   let ok := run_oracle (rc_b c) (rc_steps c) (rc_res c)
             && (if rc_kind c =? 1 then forallb (fun '(code, _, _, _) => code =? 0) (rc_res c) else true)
             && (if 2 <=? rc_kind c then tamper_oracle c else true) in
   (if mismatch then 1 else 0) + (if ok then 0 else 2).
+Definition verdict (c : rcase) : N := match c with RStd c => std_verdict c | ROne c => one_verdict c end.
 Definition verdicts (cs : list rcase) : list N := map verdict cs.
